@@ -102,6 +102,10 @@ pub trait FarmBoostedYieldsModule:
         let config = match opt_config {
             Some(c) => c,
             None => {
+                // no factors configured yet: nothing is claimable, but the claim progress must still
+                // move to the current week, so that weeks which become claimable once the first
+                // configuration is set are never evaluated with a later (larger) farm position
+                self.update_energy_and_progress(user);
                 return BigUint::zero();
             }
         };
